@@ -43,3 +43,58 @@ func H_C21_encode_string() {
 		nd.Assert(got == s, "encode/decode round trip is exact")
 	}
 }
+
+// H_C21_encoder_structure: whatever the encoder's whitespace choices (single line with the
+// detrand-controlled optional space, or indented), the document it writes for a small nested value
+// {"<k>": <bool>, "l": [<int>, "<s>", {}], "n": null} is valid JSON (reference recogniser) and the
+// decoder reads back the same sequence of tokens with the same values.
+//
+//verif:props=C21,C20 bounds=fixed-shape-document;symbolic-key(1-byte),bool,string<=1-byte;concrete-number;3-indent-modes;all-detrand-choices maxsteps=6000000
+func H_C21_encoder_structure() {
+	indent := []string{"", " ", "\t"}[nd.Int(0, 2)]
+	e, err := NewEncoder(nil, indent)
+	nd.Assert(err == nil, "encoder")
+	k := nd.StringN(1)
+	nd.Assume(k[0] >= 0x20 && k[0] < 0x7f && k[0] != '"' && k[0] != '\\')
+	bv := nd.Bool()
+	iv := byte(42) // concrete: symbolic integer formatting (strconv digit tables) is out of reach
+	sv := nd.String(1)
+	nd.Assume(utf8.ValidString(sv))
+	e.StartObject()
+	e.WriteName(k)
+	e.WriteBool(bv)
+	e.WriteName("l")
+	e.StartArray()
+	e.WriteUint(uint64(iv))
+	nd.Assert(e.WriteString(sv) == nil, "valid UTF-8 string is written")
+	e.StartObject()
+	e.EndObject()
+	e.EndArray()
+	e.WriteName("n")
+	e.WriteNull()
+	e.EndObject()
+	out := e.Bytes()
+	nd.Reach("written")
+	nd.Assert(refDocument(out), "encoder output is valid JSON")
+	d := NewDecoder(out)
+	kinds := []Kind{ObjectOpen, Name, Bool, Name, ArrayOpen, Number, String, ObjectOpen, ObjectClose, ArrayClose, Name, Null, ObjectClose, EOF}
+	for i, want := range kinds {
+		tok, rerr := d.Read()
+		nd.Assert(rerr == nil, "decoder accepts the encoder's output")
+		if rerr != nil {
+			return
+		}
+		nd.Assert(tok.Kind() == want, "same token sequence")
+		switch i {
+		case 1:
+			nd.Assert(tok.Name() == k, "key")
+		case 2:
+			nd.Assert(tok.Bool() == bv, "bool value")
+		case 5:
+			u, ok := tok.Uint(64)
+			nd.Assert(ok && u == uint64(iv), "number value")
+		case 6:
+			nd.Assert(tok.ParsedString() == sv, "string value")
+		}
+	}
+}
